@@ -314,7 +314,10 @@ def run_if(ctx, case):
     if then_defs and ctx.choose(2, "then-branch aliases an outer computed value") == 1:
         aliases[then_defs[0]] = "t_outer"
         bind_outer(I, self, top, ["t_outer"])
-    ctx.ghost["if_alias"] = bool(aliases)
+    elif len(then_defs) >= 2 and ctx.choose(2, "then-branch binds a second variable to the value of the first (`z = y`)") == 1:
+        aliases[then_defs[1]] = then_defs[0]
+    ctx.ghost["if_alias"] = repr(sorted(aliases.items()))
+    ctx.ghost["if_alias_map"] = dict(aliases)
     stmt.fields.update(test=test, body=[AbstractStmt(then_defs, "then", aliases)] if then_defs else [AbstractStmt([], "then")],
                        orelse=[AbstractStmt(else_defs, "else")] if else_defs else [AbstractStmt([], "else")],
                        lineno=1, col_offset=0)
@@ -367,11 +370,16 @@ def s_if(ctx, k=2):
         bound[var] = idx[0] if idx else None
     ctx.check("C01.converter.if.every_live_def_bound_to_an_If_output", all(bound[v] is not None for v in D) and
               sorted(bound.values()) == list(range(len(D))), CL_ALIGN)
-    aligned = all(bound[v] is not None and var_of(then_g.outputs[bound[v]]) == v and var_of(else_g.outputs[bound[v]]) == v for v in D)
+    # `z = y` inside the then-branch: the output for z may be y's value itself (when y is not an output) — it then carries y's ghost label
+    am = ctx.ghost.get("if_alias_map") or {}
+    aligned = all(bound[v] is not None and var_of(then_g.outputs[bound[v]]) in (v, am.get(v, v)) and var_of(else_g.outputs[bound[v]]) == v for v in D)
     ctx.check("C01.converter.if.branch_outputs_aligned_with_bound_variables", aligned, CL_ALIGN)
     for g, nm in ((then_g, "then"), (else_g, "else")):
         inside = all(o.fields["name"] in g.assigned_names for o in g.outputs)
         ctx.check(f"C02.converter.if.{nm}_outputs_produced_inside_the_subgraph", inside, CL_SCOPE)
+        ctx.check(f"C02.converter.if.{nm}_outputs_are_pairwise_distinct_values", len({id(o) for o in g.outputs}) == len(g.outputs),
+                  "C02: 'every emitted proto is well-formed' - the outputs of a graph are distinct names (two variables bound to one value need a copy) / "
+                  "C01: each If output carries the value of ITS variable")
     # a branch that does not assign a live variable returns a copy of the CURRENT (innermost) binding of it
     log = ctx.ghost["log"]
     current = ctx.ghost["if_current"]
@@ -422,7 +430,12 @@ def run_loop(ctx, case):
         t.fields["id"] = "cond"
         stmt.fields.update(test=t)
         body_defs = list(body_defs)
-    body = [AbstractStmt(body_defs + ([] if is_for else ["cond"]), "body")]
+    aliases = {}
+    if len(body_defs) >= 2 and ctx.choose(2, "the body binds a second variable to the value of the first (`b = a`)") == 1:
+        aliases[body_defs[1]] = body_defs[0]
+    ctx.ghost["loop_alias"] = repr(sorted(aliases.items()))
+    ctx.ghost["loop_alias_map"] = dict(aliases)
+    body = [AbstractStmt(body_defs + ([] if is_for else ["cond"]), "body", aliases)]
     stmt.fields.update(body=body, lineno=1, col_offset=0)
     C = CM._conv_cls()
     I.models[C._translate_name_expr] = lambda interp, slf, node: interp.call(interp.getattr(slf, "_py_var_to_onnx_var"), [node.fields["id"], CM.real_info()])
@@ -476,12 +489,16 @@ def s_loop(ctx, k=2):
     names = {nm: cand for nm, cand in ctx.ghost["log"].names}
     par_vars = [names.get(p.fields["name"]) for p in body.inputs[2:]]
     out_vars = [var_of(v) for v in body.outputs[1:]]
-    aligned = all(in_vars[pos[v]] == v and par_vars[pos[v]] == v and out_vars[pos[v]] == v for v in S)
+    am = ctx.ghost.get("loop_alias_map") or {}    # `b = a` in the body: b's next value may be a's value itself when a is not loop state
+    aligned = all(in_vars[pos[v]] == v and par_vars[pos[v]] == v and out_vars[pos[v]] in (v, am.get(v, v)) for v in S)
     ctx.check("C01.converter.loop.inputs_parameters_body_outputs_and_Loop_outputs_aligned", aligned,
               CL_ALIGN + " — Loop inputs[2+k], body parameters[2+k], body outputs[1+k] and the name bound to Loop output k must be one variable")
     inside = all(o.fields["name"] in body.assigned_names for o in body.outputs)
     ctx.check("C02.converter.loop.body_outputs_produced_inside_the_body", inside, CL_SCOPE)
-    key = ("loop", repr(case))
+    ctx.check("C02.converter.loop.body_outputs_are_pairwise_distinct_values", len({id(o) for o in body.outputs}) == len(body.outputs),
+              "C02: 'every emitted proto is well-formed' - the outputs of a graph are distinct names (two variables bound to one value need a copy) / "
+              "C01: each Loop output carries the value of ITS variable")
+    key = ("loop", repr(case), ctx.ghost.get("loop_alias"))
     canon = _CANON.setdefault(key, struct1)
     ctx.check("C14.converter.loop.translation_independent_of_set_iteration_order", struct1 == canon, CL_DET)
 
